@@ -7,7 +7,7 @@ ALL = ['C%02d' % i for i in range(1, 21)]
 CHECKS = {
  'C07': dict(cat='model_checking', engine='gen+mirsym',
    text='Seeded random well-formed wowm programs over the features the corpus uses (vf/randwowm.py) replace single-message files of a scratch copy; the REAL generator is run on it, the emitted Rust is compiled, and the C01 machinery (MIR symbolic execution + z3: read -> write -> size over canonical encodings with all field values symbolic, per covered shape) is run on every new message with the scratch tree as the repository. Programs whose generated code does not compile are reported (classified by the construct the compiler trips over) and removed, the rest is regenerated and checked.',
-   note='Per program the claim is C01\'s (same bounds); the set of programs is SAMPLED (10 quick / 48 thorough per VERIF_SEED), not exhaustive: a pass says nothing about programs not drawn. self.size, masks and compressed members are not generated. Four generator defects found this way are recorded as known findings (see known_findings.json).',
+   note='Per program the claim is C01\'s (same bounds); the set of programs is SAMPLED (10 programs, fixed internal seed 0 in both tiers so that findings are reproducible; thorough uses the thorough bounds of the sub-checks), not exhaustive: a pass says nothing about programs not drawn. self.size, masks and compressed members are not generated. Four generator defects found this way are recorded as known findings (see known_findings.json).',
    technique='real generator on random programs + symbolic execution of the generated code\'s MIR into SMT (z3) per program and shape', ref='DESIGN.md 4/C07'),
  'C16': dict(cat='model_checking', engine='gen+mirsym',
    text='(A, solver) WorldVersion::overlaps/covers and LoginVersion::overlaps/fullfills are executed from the generator\'s MIR with both arguments fully symbolic (variant and all fields); z3 decides for all pairs of versions that overlaps <=> the denoted build sets intersect, covers/fullfills <=> superset (quantified over all builds), symmetry, covers => overlaps. (B, fault injection) each of 17 static rules is violated at several sites of the real corpus (top level, structs used by messages, inside if / optional blocks, tag_all files, paste_versions objects) in a scratch copy and the real generator must stop with that rule\'s exit status; the clean tree must be accepted.',
